@@ -1,8 +1,9 @@
 import VlsModel.Drv.Common
-/- Line-protocol models serving property C19 (none yet). -/
+import VlsModel.Drv.Wire
+/- Line-protocol models serving property C19. -/
 namespace VlsModel.Drv.C19
 open VlsModel.Drv
 
-def models : List (String × Model) := []
+def models : List (String × Model) := [ ("wire", Wire.model) ]
 
 end VlsModel.Drv.C19
